@@ -98,6 +98,15 @@ def check(rng, deep):
             C.push(out, dict(what='stage-block nonlinear path differs from the backward-function block (which matches the reference recursion)', input=dict(kind='recursion', block='stage', shocked=sorted(sh)),
                              observed=float(dev), signature=dict(op='stage-recursion', pulse=any(v[0] == 0 and np.any(v != 0) for v in sh.values()))))
         compare('pair_het', m.pair_het, ssh, sh, T, out)
+    # a distinct INITIAL steady state for the stage block: the path starts from the initial steady state's first-stage distribution (same answer as the backward-function block)
+    ssh0, sst0 = m.pair_het.steady_state(dict(m.PAIR_CALIB, r=0.02)), m.pair_stage.steady_state(dict(m.PAIR_CALIB, r=0.02))
+    n += 1
+    a = m.pair_het.impulse_nonlinear(ssh, {'r': np.zeros(T)}, ss_initial=ssh0)
+    b = m.pair_stage.impulse_nonlinear(sst, {'r': np.zeros(T)}, ss_initial=sst0)
+    dev = max(np.abs(a[k] - b[k]).max() for k in ('A', 'C', 'UC'))
+    if dev > 1e-6 or np.abs(b['A']).max() < 1e-4:
+        C.push(out, dict(what='with a distinct initial steady state the stage-block path differs from the backward-function block (or ignores the initial distribution)', input=dict(kind='recursion', block='stage', distinct_initial=True),
+                         observed=float(dev), signature=dict(op='stage-recursion', distinct_initial=True)))
     # the stage rendition of the household with a movable borrowing limit: policies leave the grid at the bottom (and the top on a short grid) along the path
     for cal, sh in ((m.LOOSE_CALIB, {'blim': np.r_[0.0, -0.3, -0.3, -0.1, 0.0, 0.0]}), (dict(m.LOOSE_CALIB, max_a=4.0, n_a=14, beta=0.975), {'r': np.r_[0.0, 0.02, 0.02, 0.01, 0.0, 0.0], 'w': 0.05 * np.ones(T)})):
         n += 1
